@@ -2,6 +2,7 @@ import Enc.Driver.Ascii
 import Enc.Driver.Proto
 import Enc.Driver.Iso
 import Enc.Driver.Thrift
+import Enc.Driver.Json
 /-!
 encdriver: reads `op<TAB>arg…` lines on stdin, answers `M<TAB>S<TAB>K` per line
 (model observable, spec observable, comma-separated Known classes), `bad-op` for what it cannot parse.
@@ -14,6 +15,7 @@ def dispatch (op : String) (args : List String) : Option (String × String × St
   else if op.startsWith "proto." then Driver.Proto.handle op args
   else if op.startsWith "iso." then Driver.Iso.handle op args
   else if op.startsWith "thrift." then Driver.Thrift.handle op args
+  else if op.startsWith "json." then Driver.Json.handle op args
   else none
 
 def step (line : String) : String :=
